@@ -58,7 +58,13 @@ out += ['', 'Every MISSED entry of the multi-seed sweeps was traced to a trigger
         'lists, more byte-like constructor cases, a handful of shared container class names, and union value writes on partial trees; '
         'the MISSED entries of the all280 / all320 sweeps (C02M, C10M, C08O seed 1; C06M seed 0) likewise: caught with seeds 0-3 after '
         'byte-sized elements filling exactly one / two chunks became fixed cases, the later-offset table was enlarged, paths through '
-        'container types that print alike were added to the C08 check and root unions with a snapshot and a copy to the store checks.', '',
+        'container types that print alike were added to the C08 check and root unions with a snapshot and a copy to the store checks; '
+        'the MISSED entries of the all360 / all400 sweeps (C01O, C10Q, C12Q seed 1; C03O, C12R seed 0; C14O, C16S, C19T seed 1) likewise: '
+        'caught with seeds 0-2 after every kind of same-content family became a fixed case, sequences of empty variable-size elements '
+        'with every later offset edited, default vectors of composite elements at every small length, families of alike types as value '
+        'cases, element types with equal default roots used one after the other, changes to another selector with an invalid value, bit '
+        'fields 1..7 bits short of a chunk boundary and None-selected unions were added as fixed cases, and the hash counter was extended '
+        'to hashes made through `settings.merkle_hash` by modules other than tree.py.', '',
         '| change | file(s) touched | ' + ' | '.join(l.replace('.log', '').replace('rounds123_', 'r123 ').replace('_', ' ') for l in logs) + ' |',
         '|---|---|' + '---|' * len(logs)]
 for mid, v in rows.items():
